@@ -385,3 +385,22 @@ pub fn delivered_when_out_reached(events: &[Event], n: usize) -> Option<usize> {
     }
     None
 }
+
+/// Like `sim_files_spec`, but the command line names the directory that holds the files.
+/// The directory and nothing else in it must exist; the listing order is the file system's.
+pub fn sim_dir_spec(case: &Case, dir: &str, paths: &[String], datas: &[Vec<u8>], plans: &[FilePlan]) -> RunSpec {
+    let mut spec = sim_files_spec(case, paths, datas, plans);
+    let keep = spec.argv.len() - paths.len();
+    spec.argv.truncate(keep);
+    spec.argv.push(dir.to_string());
+    spec
+}
+
+impl Ctx {
+    /// A fresh, empty directory in this worker's private directory.
+    pub fn fresh_dir(&mut self) -> Option<String> {
+        let d = self.fresh_path("d").to_string_lossy().to_string();
+        std::fs::create_dir_all(&d).ok()?;
+        Some(d)
+    }
+}
